@@ -18,7 +18,7 @@ func lockset(fn *ssa.Function) map[ssa.Instruction]map[string]bool {
 // locksetDeep also covers the instructions of helpers that are new with respect to the reference tree and
 // are reached from fn: a called helper runs with the caller's locks (a `go` or `defer` one does not).
 func locksetDeep(fn *ssa.Function, depth int) map[ssa.Instruction]map[string]bool {
-	rec := locksetOf(fn)
+	rec := locksetOf(fn, ambientLocks(fn, 0))
 	if !haveReference || depth > 3 {
 		return rec
 	}
@@ -33,6 +33,43 @@ func locksetDeep(fn *ssa.Function, depth int) map[ssa.Instruction]map[string]boo
 				continue
 			}
 			_, isCall := ins.(*ssa.Call)
+			// functions handed to the helper run where the helper calls them, under its locks and the caller's
+			gl := locksetOf(g, nil)
+			for i, a := range c.Common().Args {
+				if i >= len(g.Params) {
+					break
+				}
+				var h *ssa.Function
+				switch v := a.(type) {
+				case *ssa.Function:
+					h = v
+				case *ssa.MakeClosure:
+					h, _ = v.Fn.(*ssa.Function)
+				}
+				if h == nil || len(h.Blocks) == 0 || h == fn {
+					continue
+				}
+				for _, pr := range *g.Params[i].Referrers() {
+					d, ok := pr.(*ssa.Call)
+					if !ok || d.Common().Value != ssa.Value(g.Params[i]) {
+						continue
+					}
+					around := map[string]bool{}
+					for l := range gl[d] {
+						around[l] = true
+					}
+					if isCall {
+						for l := range rec[ins] {
+							around[l] = true
+						}
+					}
+					for k, v := range locksetOf(h, around) {
+						if _, dup := rec[k]; !dup {
+							rec[k] = v
+						}
+					}
+				}
+			}
 			for _, h := range withClosures(g) {
 				sub := locksetDeep(h, depth+1)
 				for k, v := range sub {
@@ -56,7 +93,88 @@ func locksetDeep(fn *ssa.Function, depth int) map[ssa.Instruction]map[string]boo
 	return rec
 }
 
-func locksetOf(fn *ssa.Function) map[ssa.Instruction]map[string]bool {
+// ambientLocks: fn is a function literal (or a new function) whose only use is as an argument of helpers that are
+// new with respect to the reference tree, and those helpers do nothing with that parameter but call it: the locks
+// held at every such call (in the helper, plus those the helper's caller holds) are held while fn runs. This is the
+// `withLock(func(){...})` shape a lock/do/unlock sequence is refactored into.
+func ambientLocks(fn *ssa.Function, depth int) map[string]bool {
+	if !haveReference || depth > 2 || fn.Parent() == nil {
+		return nil
+	}
+	var result map[string]bool
+	first := true
+	meet := func(m map[string]bool) {
+		if first {
+			result, first = m, false
+			return
+		}
+		for k := range result {
+			if !m[k] {
+				delete(result, k)
+			}
+		}
+	}
+	parent := fn.Parent()
+	found := false
+	for _, b := range parent.Blocks {
+		for _, ins := range b.Instrs {
+			mc, ok := ins.(*ssa.MakeClosure)
+			if !ok || mc.Fn != ssa.Value(fn) {
+				continue
+			}
+			found = true
+			for _, ref := range *mc.Referrers() {
+				c, ok := ref.(*ssa.Call)
+				if !ok {
+					if _, dbg := ref.(*ssa.DebugRef); dbg {
+						continue
+					}
+					return nil
+				}
+				g := staticCallee(c.Common())
+				if g == nil || !isNewHelper(g) {
+					return nil
+				}
+				outer := locksetDeepAmbient(parent, depth+1)[c]
+				gl := locksetOf(g, nil)
+				for i, a := range c.Common().Args {
+					if a != ssa.Value(mc) || i >= len(g.Params) {
+						continue
+					}
+					prm := g.Params[i]
+					for _, pr := range *prm.Referrers() {
+						d, ok := pr.(*ssa.Call)
+						if !ok || d.Common().Value != ssa.Value(prm) {
+							if _, dbg := pr.(*ssa.DebugRef); dbg {
+								continue
+							}
+							return nil // the helper does something else with the function: stored, passed on, run later
+						}
+						m := map[string]bool{}
+						for l := range gl[d] {
+							m[l] = true
+						}
+						for l := range outer {
+							m[l] = true
+						}
+						meet(m)
+					}
+				}
+			}
+		}
+	}
+	if !found {
+		return nil
+	}
+	return result
+}
+
+// locksetDeepAmbient: the lock sets of fn, starting from the locks that surround fn itself.
+func locksetDeepAmbient(fn *ssa.Function, depth int) map[ssa.Instruction]map[string]bool {
+	return locksetOf(fn, ambientLocks(fn, depth))
+}
+
+func locksetOf(fn *ssa.Function, initial map[string]bool) map[ssa.Instruction]map[string]bool {
 	type set = map[string]bool
 	in := map[*ssa.BasicBlock]set{}
 	copySet := func(s set) set {
@@ -102,6 +220,9 @@ func locksetOf(fn *ssa.Function) map[ssa.Instruction]map[string]bool {
 	visited := map[*ssa.BasicBlock]bool{}
 	work := []*ssa.BasicBlock{fn.Blocks[0]}
 	in[fn.Blocks[0]] = set{}
+	for k := range initial {
+		in[fn.Blocks[0]][k] = true
+	}
 	visited[fn.Blocks[0]] = true
 	for len(work) > 0 {
 		b := work[0]
